@@ -415,7 +415,7 @@ def run(tier, t0):
     # ---- fault enumeration: every abort point of selected calls, then probe calls
     ab_events = [by_name[n] for n in ABORT_EVENTS + ABORT_PURE if n in by_name]
     probes = ab_events[:8] + [by_name[n] for n in ['lonlat_to_cell:f03t1in', 'cell_to_boundary:f03t3in', 'cell_to_children'] + ABORT_PURE if n in by_name]
-    cap = (3, 1) if tier == 'quick' else None
+    cap = (3, 1) if tier == 'quick' else (40, 10)      # thorough: first 40 / last 10 occurrences of every line site (the default res-0 ring alone has 128 000 line events)
     if tier == 'quick':
         ab_events = [e for e in ab_events if e[0] not in ('cell_to_boundary:f07t5in', 'low:cell_to_boundary:auto:r0:f11t6', 'cell_to_boundary:default_r7', 'compact:plain')]
     ab_tasks = [(ev, probes, {p[0]: expected[p[0]] for p in probes}, cap, (3, i)) for ev in ab_events for i in range(3 if ev[0] not in ABORT_PURE else 1)]
@@ -443,7 +443,7 @@ def run(tier, t0):
     rule = (f'event menu of {len(full)} public calls (12 faces x 10 triangles x inside/near-edge x lonlat_to_cell, cell_to_boundary, cell_to_lonlat + 18 other calls, mutate-the-result variants); '
             f'all histories of length 1 over the menu, length 2 over {len(menu2)} events, length 3 over {len(sub)} events (extended only from histories that reached a new library state), '
             'and 4 (quick: 2) saturation histories (whole menu in different orders, then every event again); tie clusters; fault enumeration: 20 calls aborted by an injected exception at every line event '
-            '(quick: first 3 / last 1 occurrences per site, 16 calls) followed by 16 probe calls; a state is the canonical hash of everything reachable from the a5 module globals')
+            '(quick: first 3 / last 1 occurrences per site, 16 calls; thorough: first 40 / last 10) followed by 16 probe calls; a state is the canonical hash of everything reachable from the a5 module globals')
     return common.finish(PID, LEVEL, tier, acc, t0, rule, [
         'the oracle value of an event is the value of the single call in a process forked from a pristine import; 16 of them per run are compared with genuinely fresh interpreters',
         'state identity = sha1 of a generic canonical walk over all a5 module globals and reachable instance dicts (dicts sorted, floats by hex); histories reaching a seen state are not extended',
